@@ -2,23 +2,24 @@ import DispensoVerif.Proofs.SchedShape
 import DispensoVerif.Proofs.SchedReach
 
 /-!
-History invariant for C04: every frame that holds a passed cancel guard (strictly: a packaged task
-whose wrapper passed the guard; weakly: a call whose cancel check of the set passed) is backed by
+History invariant for C04: every frame that holds a passed, not yet consumed cancel check of a set
+`S` (`Ob`: a packaged task whose wrapper passed the guard, a call whose cancel check of its set
+passed, or a call that decided after such a check to run the reserved task unpackaged) is backed by
 an earlier accepted `tsGuard S false _` event of the same thread, executed by that very frame
-(the stack of the thread never dropped below the depth of the frame since), and — in the strict
-case — with no `begin_` of the thread at that depth since.
+(the stack of the thread never dropped below the depth of the frame since), with no `begin_` of the
+thread at that depth since: every `begin_` of a frame consumes the check it holds.
 -/
 namespace Dispenso.Sched
 
 /-- guard witness: the trace `tr` contains an accepted event `(t, tsGuard S false site)`, executed
 at stack depth `d` of thread `t` in a state where `S` is not cancelled; since then the stack of `t`
-never was lower than `d`; if `strict`, no `begin_` event of `t` was executed at depth `d` since -/
-def GW (tr : List (Nat × Ev)) (t d S : Nat) (strict : Bool) : Prop :=
+never was lower than `d`, and no `begin_` event of `t` was executed at depth `d` -/
+def GW (tr : List (Nat × Ev)) (t d S : Nat) : Prop :=
   ∃ tr1 tr2 site s1 s2, tr = tr1 ++ (t, Ev.tsGuard S false site) :: tr2 ∧
     run (St.init 0) tr1 = some s1 ∧ step s1 t (.tsGuard S false site) = some s2 ∧
     S ∉ s1.cancelled ∧ (s1.stack t).length = d ∧
     (∀ a b sm, tr2 = a ++ b → run s2 a = some sm → d ≤ (sm.stack t).length) ∧
-    (strict = true → ∀ a id b sm, tr2 = a ++ (t, Ev.begin_ id) :: b → run s2 a = some sm →
+    (∀ a id b sm, tr2 = a ++ (t, Ev.begin_ id) :: b → run s2 a = some sm →
       (sm.stack t).length ≠ d)
 
 theorem snoc_eq_append {α} {x : α} : ∀ {l a b : List α}, l ++ [x] = a ++ b →
@@ -53,12 +54,13 @@ theorem run_split {s0 s : St} {tr1 tr2 : List (Nat × Ev)} {t : Nat} {e : Ev} {s
   simp only [Option.bind_some, run_cons, h2] at hrun
   exact hrun
 
-/-- a witness survives one more accepted event, if the frame it belongs to survives -/
-theorem GW.extend {tr : List (Nat × Ev)} {s s' : St} {t0 : Nat} {e : Ev} {t d S : Nat} {b : Bool}
+/-- a witness survives one more accepted event, if the frame it belongs to survives and the event
+is not a `begin_` of that frame -/
+theorem GW.extend {tr : List (Nat × Ev)} {s s' : St} {t0 : Nat} {e : Ev} {t d S : Nat}
     (hrun : run (St.init 0) tr = some s) (hstep : step s t0 e = some s')
-    (hg : GW tr t d S b) (hd : d ≤ (s'.stack t).length)
-    (hb : b = true → ∀ id, t0 = t → e = .begin_ id → (s.stack t).length ≠ d) :
-    GW (tr ++ [(t0, e)]) t d S b := by
+    (hg : GW tr t d S) (hd : d ≤ (s'.stack t).length)
+    (hb : ∀ id, t0 = t → e = .begin_ id → (s.stack t).length ≠ d) :
+    GW (tr ++ [(t0, e)]) t d S := by
   obtain ⟨tr1, tr2, site, s1, s2, rfl, h1, h2, h3, h4, h5, h6⟩ := hg
   have hs2 : run s2 tr2 = some s := run_split hrun h1 h2
   refine ⟨tr1, tr2 ++ [(t0, e)], site, s1, s2, by simp, h1, h2, h3, h4, ?_, ?_⟩
@@ -68,19 +70,18 @@ theorem GW.extend {tr : List (Nat × Ev)} {s s' : St} {t0 : Nat} {e : Ev} {t d S
     · rw [ha, run_snoc, hs2] at hsm
       simp only [Option.bind_some, hstep, Option.some.injEq] at hsm
       rw [← hsm]; exact hd
-  · intro hbt a id c sm hac hsm
+  · intro a id c sm hac hsm
     rcases snoc_eq_append_cons hac with ⟨c', _, hl⟩ | ⟨ha, hx, _⟩
-    · exact h6 hbt a id c' sm hl hsm
+    · exact h6 a id c' sm hl hsm
     · rw [ha, hs2] at hsm
       have hsm' : s = sm := Option.some.inj hsm
       rw [← hsm']
       have := Prod.mk.inj hx
-      exact hb hbt id this.1.symm this.2.symm
+      exact hb id this.1.symm this.2.symm
 
 /-- the history invariant -/
 def Hist (tr : List (Nat × Ev)) (s : St) : Prop :=
-  ∀ t pre f rest S, norm (s.thr t) = pre ++ f :: rest →
-    (ObS f S → GW tr t (rest.length + 1) S true) ∧ (ObW f S → GW tr t (rest.length + 1) S false)
+  ∀ t pre f rest S, norm (s.thr t) = pre ++ f :: rest → Ob f S → GW tr t (rest.length + 1) S
 
 theorem Hist.init : Hist [] (St.init 0) := by
   intro t pre f rest S h
@@ -91,7 +92,7 @@ theorem Hist.init : Hist [] (St.init 0) := by
     | nil => simp only [List.nil_append, List.cons.injEq] at h; exact h.1.symm
     | cons a pre => simp at h
   subst hf
-  simp [ObS, ObW]
+  simp [Ob]
 
 theorem Hist.next {tr : List (Nat × Ev)} {s s' : St} {t0 : Nat} {e : Ev}
     (hrun : run (St.init 0) tr = some s) (hI : Inv s) (hH : Hist tr s)
@@ -102,30 +103,25 @@ theorem Hist.next {tr : List (Nat × Ev)} {s s' : St} {t0 : Nat} {e : Ev}
   have hlen : rest.length + 1 ≤ (s'.stack t).length := by
     rw [stack_eq_norm, hdec]; simp
   -- carry an obligation of an old frame sitting on the same `rest` over to the new trace
-  have carryS : ∀ (fo : Frame) (pre₀ : List Frame), norm (s.thr t) = pre₀ ++ fo :: rest →
-      ObS fo S → (∀ id, t0 = t → e = .begin_ id → pre₀ ≠ []) →
-      GW (tr ++ [(t0, e)]) t (rest.length + 1) S true := by
+  have carry : ∀ (fo : Frame) (pre₀ : List Frame), norm (s.thr t) = pre₀ ++ fo :: rest →
+      Ob fo S → (∀ id, t0 = t → e = .begin_ id → pre₀ ≠ []) →
+      GW (tr ++ [(t0, e)]) t (rest.length + 1) S := by
     intro fo pre₀ hold hob hne
-    refine GW.extend hrun hstep ((hH t pre₀ fo rest S hold).1 hob) hlen (fun _ id h1 h2 => ?_)
+    refine GW.extend hrun hstep (hH t pre₀ fo rest S hold hob) hlen (fun id h1 h2 => ?_)
     have := hne id h1 h2
     rw [stack_eq_norm, hold]
     cases pre₀ with
     | nil => exact absurd rfl this
     | cons a p => simp; omega
-  have carryW : ∀ (fo : Frame) (pre₀ : List Frame), norm (s.thr t) = pre₀ ++ fo :: rest →
-      ObW fo S → GW (tr ++ [(t0, e)]) t (rest.length + 1) S false := by
-    intro fo pre₀ hold hob
-    exact GW.extend hrun hstep ((hH t pre₀ fo rest S hold).2 hob) hlen (fun h => by cases h)
   by_cases ht : t ≠ t0
   · rw [hsh.thr_other ht] at hdec
-    exact ⟨fun h => carryS f pre hdec h (fun _ h1 _ => absurd h1.symm ht),
-      fun h => carryW f pre hdec h⟩
+    exact fun h => carry f pre hdec h (fun _ h1 _ => absurd h1.symm ht)
   have ht : t = t0 := Decidable.not_not.1 ht
   subst ht
   -- a fresh guard event on the top frame
-  have fresh : ∀ b, Fresh s e S → rest = rest0 → (s'.stack t).length = rest0.length + 1 →
-      GW (tr ++ [(t, e)]) t (rest.length + 1) S b := by
-    intro b ⟨site, he, hc⟩ hr hl
+  have fresh : Fresh s e S → rest = rest0 → (s'.stack t).length = rest0.length + 1 →
+      GW (tr ++ [(t, e)]) t (rest.length + 1) S := by
+    intro ⟨site, he, hc⟩ hr hl
     subst he hr
     refine ⟨tr, [], site, s, s', rfl, hrun, hstep, hc, by rw [stack_eq_norm, hs0]; rfl, ?_, ?_⟩
     · intro a c sm hac hsm
@@ -134,31 +130,28 @@ theorem Hist.next {tr : List (Nat × Ev)} {s s' : St} {t0 : Nat} {e : Ev}
       simp only [run, Option.some.injEq] at hsm
       rw [← hsm, hl]
       exact Nat.le_refl _
-    · intro _ a id c sm hac
+    · intro a id c sm hac
       have := congrArg List.length hac
       simp at this
   cases hsh with
   | same h hb =>
     rw [h] at hdec
-    exact ⟨fun ho => carryS f pre hdec ho (fun id _ h2 => absurd h2 (hb id)),
-      fun ho => carryW f pre hdec ho⟩
+    exact fun ho => carry f pre hdec ho (fun id _ h2 => absurd h2 (hb id))
   | push F h hF hb =>
     rw [h, upd_same, norm_cons] at hdec
     rcases List.cons_eq_append_iff.1 hdec with ⟨_, h2⟩ | ⟨pre', _, h2⟩
     · have hf : f = F := (List.cons.inj h2).1
       subst hf
-      simp [ObS, ObW, hF.1, hF.2]
+      simp [Ob, hF.1, hF.2]
     · rw [← hs0] at h2
-      exact ⟨fun ho => carryS f pre' h2 ho (fun id _ h2 => absurd h2 (hb id)),
-        fun ho => carryW f pre' h2 ho⟩
+      exact fun ho => carry f pre' h2 ho (fun id _ h2 => absurd h2 (hb id))
   | pop h hk hb =>
     have hr := rest_ne_nil_of_pop hI.bot hs0 hk
     obtain ⟨g, rest', hr'⟩ := List.exists_cons_of_ne_nil hr
     rw [h, upd_same, hr', norm_cons, ← hr'] at hdec
     have hold : norm (s.thr t) = (f0 :: pre) ++ f :: rest := by rw [hs0, hdec]; rfl
-    exact ⟨fun ho => carryS f _ hold ho (fun id _ h2 => absurd h2 (hb id)),
-      fun ho => carryW f _ hold ho⟩
-  | top f0' h hb hset hfq hS hW =>
+    exact fun ho => carry f _ hold ho (fun id _ h2 => absurd h2 (hb id))
+  | top f0' h hb hset hfq hO =>
     rw [h, upd_same, norm_cons] at hdec
     have hl : (s'.stack t).length = rest0.length + 1 := by
       rw [stack_eq_norm, h, upd_same, norm_cons]; rfl
@@ -166,47 +159,35 @@ theorem Hist.next {tr : List (Nat × Ev)} {s s' : St} {t0 : Nat} {e : Ev}
     · obtain ⟨hf, hr⟩ := List.cons.inj h2
       subst hf
       have hold : norm (s.thr t) = [] ++ f0 :: rest := by rw [hs0, ← hr]; rfl
-      refine ⟨fun ho => ?_, fun ho => ?_⟩
-      · rcases hS S ho with ho' | hfr
-        · exact carryS f0 [] hold ho' (fun id _ h2 => absurd h2 (hb id))
-        · exact fresh true hfr hr hl
-      · rcases hW S ho with ho' | hfr
-        · exact carryW f0 [] hold ho'
-        · exact fresh false hfr hr hl
+      intro ho
+      rcases hO S ho with ho' | hfr
+      · exact carry f0 [] hold ho' (fun id _ h2 => absurd h2 (hb id))
+      · exact fresh hfr hr hl
     · have hold : norm (s.thr t) = (f0 :: pre') ++ f :: rest := by rw [hs0, h2]; rfl
-      exact ⟨fun ho => carryS f _ hold ho (fun id _ h2 => absurd h2 (hb id)),
-        fun ho => carryW f _ hold ho⟩
+      exact fun ho => carry f _ hold ho (fun id _ h2 => absurd h2 (hb id))
   | begin F f0' id he h hF hp hg hset hfq =>
     rw [h, upd_same, norm_cons] at hdec
     rcases List.cons_eq_append_iff.1 hdec with ⟨_, h2⟩ | ⟨pre', _, h2⟩
     · have hf : f = F := (List.cons.inj h2).1
       subst hf
-      simp [ObS, ObW, hF.1, hF.2]
+      simp [Ob, hF.1, hF.2]
     · rcases List.cons_eq_append_iff.1 h2 with ⟨_, h3⟩ | ⟨pre'', _, h3⟩
-      · obtain ⟨hf, hr⟩ := List.cons.inj h3
+      · -- the frame that begins the body: the check it held is consumed
+        obtain ⟨hf, hr⟩ := List.cons.inj h3
         subst hf
-        have hold : norm (s.thr t) = [] ++ f0 :: rest := by rw [hs0, ← hr]; rfl
-        refine ⟨fun ho => ?_, fun ho => ?_⟩
-        · simp [ObS, hp] at ho
-        · refine carryW f0 [] hold ?_
-          simp only [ObW, hp, reduceCtorEq, false_and, or_false] at ho
-          exact Or.inl ⟨hg ▸ ho.1, hset ▸ ho.2⟩
+        simp [Ob, hp, hg]
       · have hold : norm (s.thr t) = (f0 :: pre'') ++ f :: rest := by rw [hs0, h3]; rfl
-        exact ⟨fun ho => carryS f _ hold ho (fun _ _ _ => by simp),
-          fun ho => carryW f _ hold ho⟩
+        exact fun ho => carry f _ hold ho (fun _ _ _ => by simp)
   | endPk g rest' g' hr h hk hb hp hg hset hfq =>
     rw [h, upd_same, norm_cons] at hdec
     rcases List.cons_eq_append_iff.1 hdec with ⟨_, h2⟩ | ⟨pre', _, h2⟩
     · obtain ⟨hf, hr2⟩ := List.cons.inj h2
       subst hf
       have hold : norm (s.thr t) = [f0] ++ g :: rest := by rw [hs0, hr, ← hr2]; rfl
-      refine ⟨fun ho => carryS g _ hold ?_ (fun id _ h2 => absurd h2 (hb id)),
-        fun ho => carryW g _ hold ?_⟩
-      · simpa [ObS, hp] using ho
-      · simpa [ObW, hp, hg, hset] using ho
+      refine fun ho => carry g _ hold ?_ (fun id _ h2 => absurd h2 (hb id))
+      simpa [Ob, hp, hg, hset] using ho
     · have hold : norm (s.thr t) = (f0 :: g :: pre') ++ f :: rest := by rw [hs0, hr, h2]; rfl
-      exact ⟨fun ho => carryS f _ hold ho (fun id _ h2 => absurd h2 (hb id)),
-        fun ho => carryW f _ hold ho⟩
+      exact fun ho => carry f _ hold ho (fun id _ h2 => absurd h2 (hb id))
   | endNil l h hr hk =>
     subst hr
     have := hI.bot t
